@@ -63,10 +63,15 @@ func selText(e ast.Expr) string {
 		if p := selText(x.X); p != "" {
 			return p + "." + x.Sel.Name
 		}
-	case *ast.CallExpr: // a getter without arguments, `entry.GetHeight()`, may be declared as a free variable
+	case *ast.CallExpr: // a getter without arguments, `entry.GetHeight()`, or `len(x)` may be declared as a free variable
 		if len(x.Args) == 0 {
 			if p := selText(x.Fun); p != "" {
 				return p + "()"
+			}
+		}
+		if id, ok := x.Fun.(*ast.Ident); ok && id.Name == "len" && len(x.Args) == 1 {
+			if p := selText(x.Args[0]); p != "" {
+				return "len(" + p + ")"
 			}
 		}
 	}
@@ -120,6 +125,7 @@ func (t *tr) free(e ast.Expr) (string, string, bool) {
 	}
 	lt := leanType(gt)
 	name := strings.ReplaceAll(strings.ReplaceAll(txt, "()", ""), ".", "_")
+	name = strings.ReplaceAll(strings.ReplaceAll(name, "(", "_"), ")", "")
 	if leanReserved[name] {
 		name += "_v"
 	}
@@ -170,17 +176,18 @@ func (t *tr) expr(e ast.Expr, want string) (string, string) {
 		if x.Name == "true" || x.Name == "false" {
 			return x.Name, "Bool"
 		}
-		if v, ok := t.consts[x.Name]; ok {
-			return t.expr(&ast.BasicLit{Kind: token.INT, Value: v}, want)
-		}
+		// declared free variables, parameters and locals shadow package-level constants
 		if n, lt, ok := t.free(x); ok {
 			return n, lt
 		}
-		ty, ok := t.env[x.Name]
-		if !ok {
-			fail("unknown identifier %s", x.Name)
+		if ty, ok := t.env[x.Name]; ok {
+			return x.Name, ty
 		}
-		return x.Name, ty
+		if v, ok := t.consts[x.Name]; ok {
+			return t.expr(&ast.BasicLit{Kind: token.INT, Value: v}, want)
+		}
+		fail("unknown identifier %s", x.Name)
+		return "", ""
 	case *ast.BasicLit:
 		if x.Kind != token.INT {
 			fail("literal %s", x.Value)
